@@ -564,6 +564,22 @@ pub fn other_readers(sink: &mut Sink, rng: &mut Rng, thorough: bool) {
   for (name, b) in &bases {
     drive_all_readers(sink, &format!("unmutated {}", name), b);
   }
+  // exhaustive pass: every (card, value) pair of the tables below on every base document
+  for (name, base) in &bases {
+    for key in CARD_KEYS {
+      let natural: [&str; 6] = ["'C       '", "'G       '", "'E       '", "'c       '", "'CG      '", "'        '"];
+      let mut vals: Vec<&str> = CARD_VALUES.to_vec();
+      vals.extend(CARD_STRS.iter());
+      if key == "COORDSYS" { vals.extend(natural.iter()); }
+      if name == "skymap" && !["COORDSYS", "ORDERING", "NAXIS1", "NAXIS2", "TFORM1", "BITPIX"].contains(&key) { continue; }
+      for val in vals {
+        let mut b = base.clone();
+        if !set_card(&mut b, 2880, key, val) { break; }
+        sink.count("card-pair");
+        drive_all_readers(sink, &format!("{}: card {} = {:?}", name, key, val), &b);
+      }
+    }
+  }
   let n = if thorough { 2000 } else { 60 };
   for (name, base) in &bases {
     let per = if name == "skymap" { n / 6 } else { n };
@@ -574,7 +590,10 @@ pub fn other_readers(sink: &mut Sink, rng: &mut Rng, thorough: bool) {
         0..=4 => {
           // one header card set to a boundary value
           let key = *rng.pick(&CARD_KEYS);
-          let val = if key == "TFORM1" || key == "ORDERING" || key == "COORDSYS" || (key == "MOCVERS" && rng.chance(1, 2)) { *rng.pick(&CARD_STRS) } else { *rng.pick(&CARD_VALUES) };
+          let val = if key == "COORDSYS" && rng.chance(2, 3) {
+            // the values a coordinate-system card naturally takes (celestial, galactic, ecliptic) and close misses
+            *rng.pick(&["'C       '", "'G       '", "'E       '", "'c       '", "'CG      '", "'        '"])
+          } else if key == "TFORM1" || key == "ORDERING" || key == "COORDSYS" || (key == "MOCVERS" && rng.chance(1, 2)) { *rng.pick(&CARD_STRS) } else { *rng.pick(&CARD_VALUES) };
           if !set_card(&mut b, 2880, key, val) { continue; }
           what = format!("{}: card {} = {:?}", name, key, val);
         }
